@@ -605,7 +605,91 @@ def _native_build(tier, seed):
             "bound": f"IRDLOperation.build on every kind sequence of <= {maxd} definitions with every legal size vector (variadic sizes 0..2): builds, verifies, operands concatenated in order"}
 
 
-NATIVE = [("verify-vs-split", _native_verify), ("build-then-verify", _native_build)]
+_shared_cache: dict = {}
+
+
+def _shared_cls(okind, mode):
+    """An op whose (single / optional / variadic) operand shares a constraint variable with a variadic result: the whole range (R), its length (N) or
+    the element type (T)."""
+    key = (okind, mode)
+    if key in _shared_cache:
+        return _shared_cache[key]
+    from xdsl.irdl import (AnyAttr, AnyInt, IntVarConstraint, IRDLOperation, RangeOf, RangeVarConstraint, VarConstraint, irdl_op_definition, operand_def,
+                           opt_operand_def, var_operand_def, var_result_def)
+
+    mk = {SINGLE: operand_def, OPTIONAL: opt_operand_def, VARIADIC: var_operand_def}[okind]
+    if mode == "range":
+        c1 = c2 = RangeVarConstraint("R", RangeOf(AnyAttr()))
+    elif mode == "length":
+        n = IntVarConstraint("N", AnyInt())
+        c1, c2 = RangeOf(AnyAttr()).of_length(n), RangeOf(AnyAttr()).of_length(n)
+    else:
+        t = VarConstraint("T", AnyAttr())
+        c1, c2 = (t if okind == SINGLE else RangeOf(t)), RangeOf(t)
+    if okind == SINGLE and mode != "elem":
+        _shared_cache[key] = None  # a single operand takes an attribute constraint, not a range constraint
+        return None
+    ns = {"name": f"test.c10_sh_{okind}_{mode}", "inp": mk(c1), "outs": var_result_def(c2)}
+    try:
+        cls = irdl_op_definition(type(f"C10SH_{okind}_{mode}", (IRDLOperation,), ns))
+    except Exception:
+        cls = None
+    _shared_cache[key] = cls
+    return cls
+
+
+@rechecked
+def N_shared(okind, mode, in_types, out_types):
+    """verify() of an op whose operand segment and result segment share a constraint variable vs the consistent-binding definition."""
+    from xdsl.dialects.builtin import i32, i64
+    from xdsl.utils.exceptions import VerifyException
+    from xdsl.utils.test_value import create_ssa_value
+
+    cls = _shared_cls(okind, mode)
+    if cls is None:
+        return None
+    ty = {"a": i32, "b": i64}
+    ins = [create_ssa_value(ty[c]) for c in in_types]
+    arg = ins[0] if okind == SINGLE else ((ins[0] if ins else None) if okind == OPTIONAL else ins)
+    try:
+        op = cls.create(operands=ins, result_types=[ty[c] for c in out_types])
+    except Exception:
+        return None
+    it, ot = tuple(in_types), tuple(out_types)
+    exp = it == ot if mode == "range" else len(it) == len(ot) if mode == "length" else len(set(it) | set(ot)) <= 1
+    try:
+        op.verify()
+        got = True
+    except VerifyException:
+        got = False
+    except Exception as e:  # noqa: BLE001
+        return {"operand kind": okind, "shared variable": mode, "operand types": in_types, "result types": out_types, "verify raised": f"{type(e).__name__}: {str(e)[:120]}"}
+    if got != exp:
+        return {"operand kind": okind, "shared variable": mode, "operand types": in_types, "result types": out_types, "verify accepted": got,
+                "a consistent binding of the shared variable exists": exp}
+    return None
+
+
+def _native_shared(tier, seed):
+    """Constraint variables shared between an operand segment (possibly absent / empty) and a result segment."""
+    cases = 0
+    for okind in (SINGLE, OPTIONAL, VARIADIC):
+        sizes = {SINGLE: [1], OPTIONAL: [0, 1], VARIADIC: [0, 1, 2]}[okind]
+        for mode in ("range", "length", "elem"):
+            for n in sizes:
+                for it in itertools.product("ab", repeat=n):
+                    for m in range(0, 3):
+                        for ot in itertools.product("ab", repeat=m):
+                            cases += 1
+                            f = N_shared(okind, mode, "".join(it), "".join(ot))
+                            if f:
+                                return {"cases": cases, "failures": [dict(f, key="C10/shared-variables")], "exhaustive": True, "bound": ""}
+    return {"cases": cases, "failures": [], "exhaustive": True,
+            "bound": "operand segment (single / optional incl. ABSENT / variadic incl. empty, <= 2 values of 2 types) sharing a range variable, a length variable or an "
+                     "element-type variable with a variadic result segment (<= 2 types): verify() vs existence of a consistent binding, exhaustive"}
+
+
+NATIVE = [("verify-vs-split", _native_verify), ("build-then-verify", _native_build), ("shared-variables", _native_shared)]
 SCANS = [("def-class-hierarchy", check_class_hierarchy)]
 
 
